@@ -339,6 +339,41 @@ func HReplacePart(os, n, k, nn int) {
 	sym.Assert(!res.Panicked, sig(os, "ReplacePart", "panic"))
 	sym.Observe("path", pi.Path())
 	sym.Assert(pi.Path() == want, sigc(os, "ReplacePart", "join", m, o, p, np, want))
+	// iteration continues over the spliced path: the parts still to come are
+	// exactly the components of the new path that follow Left()
+	if res.Panicked || pi.Path() != want || !o.IsAbs(want) {
+		return
+	}
+	nvol := len(o.VolumeName(want))
+	all := components(want[nvol:], o.Sep)
+	first := true
+	idx := 0
+	steps := 0
+	for pi.Next() {
+		if first {
+			first = false
+			l := pi.Left()
+			sym.Assert(len(l) >= nvol && len(l) <= len(want), sigc(os, "ReplacePart", "continue-left", m, o, p, np, want))
+			if len(l) < nvol || len(l) > len(want) {
+				return
+			}
+			idx = len(components(l[nvol:], o.Sep))
+		}
+		sym.Assert(pi.Left()+pi.Part()+pi.Right() == want, sigc(os, "ReplacePart", "continue-reassemble", m, o, p, np, want))
+		sym.Assert(idx < len(all), sigc(os, "ReplacePart", "continue-too-many-parts", m, o, p, np, want))
+		if idx >= len(all) {
+			return
+		}
+		sym.Assert(pi.Part() == all[idx], sigc(os, "ReplacePart", "continue-part", m, o, p, np, want))
+		idx++
+		steps++
+		if steps > n+nn+2 {
+			break
+		}
+	}
+	if !first {
+		sym.Assert(idx == len(all), sigc(os, "ReplacePart", "continue-count", m, o, p, np, want))
+	}
 }
 
 // HFromUnixPath never panics (C07 shares this) and maps as documented.
